@@ -298,12 +298,18 @@ func (vc *VC) localByName(name string, env *Env) (TV, bool) {
 		return isVar
 	}
 	var found *ref
-	for blk := b; blk != nil && found == nil; blk = blk.Idom() {
+	var foundPhi *ssa.Phi
+	for blk := b; blk != nil && found == nil && foundPhi == nil; blk = blk.Idom() {
 		hi := len(blk.Instrs)
 		if blk == b && idx < hi {
 			hi = idx
 		}
 		for i := hi - 1; i >= 0; i-- {
+			if phi, ok := blk.Instrs[i].(*ssa.Phi); ok && phi.Comment == name {
+				foundPhi = phi
+				found = &ref{nil, blk, i}
+				break
+			}
 			d, ok := blk.Instrs[i].(*ssa.DebugRef)
 			if !ok || !match(d) {
 				continue
@@ -314,6 +320,25 @@ func (vc *VC) localByName(name string, env *Env) (TV, bool) {
 	}
 	if found == nil {
 		return TV{}, false
+	}
+	if foundPhi != nil {
+		// stale if the variable is assigned between the phi and the point
+		for _, blk := range vc.fn.Blocks {
+			for i, ins := range blk.Instrs {
+				o, ok := ins.(*ssa.DebugRef)
+				if !ok || o.IsAddr || !match(o) || o.X == ssa.Value(foundPhi) {
+					continue
+				}
+				if vc.reachesFwd(found.blk, found.i, blk, i) && vc.reachesFwd(blk, i, b, idx) {
+					vc.unsupportedf("contract: variable %q is reassigned between its merge point and the point of use in %s", name, vc.name)
+					return TV{}, false
+				}
+			}
+		}
+		if tv, ok := env.loopVals[foundPhi]; ok {
+			return tv, true
+		}
+		return vc.val(foundPhi), true
 	}
 	d := found.d
 	if d.IsAddr {
@@ -746,6 +771,33 @@ func (vc *VC) trCall(x *ECall, env *Env) TV {
 			}
 		}
 		return TV{T: a.T, S: ite(c, a.S, b.S)}
+	case "entry":
+		// entry(x): the value loop variable x has when the loop is first entered
+		id, ok := x.Args[0].(*EIdent)
+		if !ok || env.loop == nil {
+			return vc.errTV("entry() needs a loop variable")
+		}
+		for _, ins := range env.loop.header.Instrs {
+			phi, ok := ins.(*ssa.Phi)
+			if !ok {
+				break
+			}
+			if phi.Comment != id.Name {
+				continue
+			}
+			var vals []ssa.Value
+			for i, p := range env.loop.header.Preds {
+				if !vc.isBackEdge(p, env.loop.header) {
+					vals = append(vals, phi.Edges[i])
+				}
+			}
+			if len(vals) == 1 {
+				tv := vc.val(vals[0])
+				tv.T = phi.Type()
+				return tv
+			}
+		}
+		return vc.errTV("entry(%s): no unique entry value", id.Name)
 	case "closed":
 		a := vc.tr(x.Args[0], env)
 		return TV{T: B, S: vc.envHeapRead(env, "#closed", B, a.S)}
